@@ -33,10 +33,11 @@ def replay_angles_to(model):
     return {"reproduced": bool(not np.allclose(A, R_zxz(row["phi"], row["theta"], row["psi"]).T, atol=1e-7)), "input": row, "observed": r.iloc[0].to_dict()}
 
 
-def replay_angles_from(model):
+def replay_angles_from(model, columns=None):
     ang = [fval(model.get(n), d) for n, d in (("rlnAngleRot", 10.0), ("rlnAngleTilt", 20.0), ("rlnAnglePsi", 30.0))]
     m = _mk([row_from_model({})], 3.1)
-    rdf = pd.DataFrame({"rlnAngleRot": [ang[0]], "rlnAngleTilt": [ang[1]], "rlnAnglePsi": [ang[2]]})
+    vals = {"rlnAngleRot": [ang[0]], "rlnAngleTilt": [ang[1]], "rlnAnglePsi": [ang[2]]}
+    rdf = pd.DataFrame({c: vals.get(c, [7.0]) for c in (columns or list(vals))})  # same column layout as the refuted configuration
     _, e = call(m.convert_angles_from_relion, rdf)
     if e is not None:
         return {"reproduced": True, "input": ang, "observed": f"raised {type(e).__name__}: {e}"}
